@@ -498,6 +498,15 @@ def refute_on_grid(row, rhs, ops, Wres, small=False):
     if small and len(ops) > 1:
         top = 1 << (W - 1)
         grid = sorted({0, 1, 2, 3, 31, 32, 33, 63, 64, 0xFF, top - 1, top, (1 << W) - 1, (1 << W) - 2, 0x0123456789ABCDEF & ((1 << W) - 1)})
+    if len(ops) == 1:
+        # one operand: every single bit, every low/high run of ones and their complements, and the byte/nibble patterns
+        M = (1 << W) - 1
+        extra = set()
+        for k in range(W):
+            extra |= {1 << k, (1 << k) - 1, M ^ (1 << k), (M << k) & M, (1 << k) | 1, (1 << k) | (1 << (W - 1))}
+        for pat in (0x55, 0xAA, 0x33, 0xCC, 0x0F, 0xF0, 0x01, 0x80, 0x7F, 0xFE):
+            extra.add(int(('%02X' % pat) * (W // 8), 16))
+        grid = sorted(set(grid) | extra)
     pts = [(x,) for x in grid] if len(ops) == 1 else [(x, y) for x in grid for y in grid]
     for vals in pts:
         env = dict(zip(ops, vals))
